@@ -188,7 +188,7 @@ def judge(args):
         # the shapes of the quantifier: list / iterator / async iterator, every callable flavour
         fault_kinds = ["exc", "typeerr"] if kind == "fault" else ["exc"]
         if tool == "sync":
-            flavours = [{"src": "cls", "call": c} for c in ("asyncdef", "def", "partial", "obj", "aw", "cls", "mixed", "mixed2")]
+            flavours = [{"src": "cls", "call": c} for c in ("asyncdef", "def", "partial", "obj", "aw", "cls", "mixed", "mixed2", "defwraps")]
         elif tool == "any_iter":
             flavours = [{"src": f, "call": "asyncdef"} for f in ("cls", "agen", "list", "iter")]
     for fl in flavours:
